@@ -23,7 +23,7 @@ class C15(PropBase):
             "real Planes::print output: must be a permutation of the table's key set and monotone in the last recognised key among "
             "rows whose key is known; ascending addresses when no key is recognised; compared with the model's order. Non-trivial "
             "= at least 3 rows with distinct known keys; distinct by (table, -o string). Plus the refreshes the real reader prints over streams of 36-60 frames "
-            "in which new aircraft appear on and around the sweep ticks (12th, 23rd, 34th frame): duplicate-free, growing, ordered, the last one complete.")
+            "in which new aircraft appear on and around the sweep ticks (12th, 23rd, 34th frame): duplicate-free, growing, ordered, the last one complete. Also through the built binary: no -o, one, several, empty, unknown letters, long name - its last refresh monotone in the key.")
 
     def table(self, rng):
         addrs, pre, body = RC.rich_rows(rng, 10, base=0x3C0000)
